@@ -360,5 +360,119 @@ def task_relabel(ctx):
     ctx.undecided_clause("Hungarian assignment in _detect_crossings (scipy) and the 3-cycle question")
 
 
-TASKS_QUICK = ["flow", "attempt_hop", "rescale", "relabel"]
+def task_scratch_buffers(ctx):
+    """Scratch buffers handed out by _get_tensor carry no state from earlier calls: with a fill value every entry equals it,
+    whatever was left in a cached buffer by an earlier trajectory / step (per-trajectory isolation, permutation precondition)."""
+    import seqm.NonadiabaticDynamics as N
+
+    fn = ctx.under_contract(NAD + ":NonadiabaticDynamicsBase._get_tensor")
+    for fill, dt in ((-1, st.int64), (0, st.float64), (False, st.bool)):
+        def thunk():
+            cache = {}
+            t1 = fn(cache, ("k",), (2, 3), st._CPU, dt, fill_value=fill)
+            # an earlier step / another trajectory leaves arbitrary content behind
+            if dt == st.float64:
+                t1.a[...] = st.symbolic((2, 3), "junk").a
+            elif dt == st.int64:
+                t1.a[...] = 7
+            else:
+                t1.a[...] = True
+            t2 = fn(cache, ("k",), (2, 3), st._CPU, dt, fill_value=fill)
+            t3 = fn(cache, ("k",), (2, 2), st._CPU, dt, fill_value=fill)
+            return t2, t3
+
+        ex = ctx.explore(thunk, name="_get_tensor")
+        for p in ex.paths:
+            if p.raised is not None:
+                ctx.fail("fill=%r.raises" % (fill,), repr(p.raised) + p.notes.get("traceback", "")[-400:])
+                continue
+            t2, t3 = p.value
+            for nm, t in (("reused", t2), ("reshaped", t3)):
+                vals = [v for v in t.a.reshape(-1)]
+                good = all((v.n.op == "const" and v.n.val == fill) if isinstance(v, Sym) else (v == fill) for v in vals)
+                if good:
+                    ctx.ok("fill=%r.%s-buffer-is-reset" % (fill, nm), "path-exploration")
+                else:
+                    ctx.fail("fill=%r.%s-buffer-is-reset" % (fill, nm), "a cached scratch buffer is handed out with stale content: %r" % (vals[:3],),
+                             replay=replay_stale_buffer({}), witness_class="stale-scratch-buffer")
+
+
+def replay_stale_buffer(model):
+    import torch
+    import seqm.NonadiabaticDynamics as N
+
+    cache = {}
+    f = N.NonadiabaticDynamicsBase._get_tensor
+    t = f(cache, ("k",), (2, 3), torch.device("cpu"), torch.long, fill_value=-1)
+    t[0, 1] = 2
+    t2 = f(cache, ("k",), (2, 3), torch.device("cpu"), torch.long, fill_value=-1)
+    return {"reproduced": bool((t2 != -1).any()), "second_call_returns": t2.tolist()}
+
+
+def replay_three_cycle(model):
+    """Real code, real Hungarian assignment: three states whose CIS vectors are cyclically exchanged in one step."""
+    import torch
+    import seqm.NonadiabaticDynamics as N
+
+    torch.set_default_dtype(torch.float64)
+    sh = object.__new__(N.SurfaceHoppingDynamics)
+    torch.nn.Module.__init__(sh)
+    sh.__dict__.update(_nstates=3, _eye_cache={}, _arange_cache={}, _detect_crossings_flag=True, _trivial_swap_buffers={}, _trivial_zero_buffers={}, _perm_cost_buffers={},
+                       post_hop_holdoff=torch.zeros(1, dtype=torch.long), prev_state=torch.full((1,), -1), _active_states=torch.tensor([0]))
+    ref = torch.eye(3).reshape(1, 3, 3)
+    tgt = ref[:, [2, 0, 1], :]  # new state j is old state j-1 (cyclic)
+    try:
+        swap = sh._detect_crossings({"cis_amp": ref, "nac_dot": None}, {"cis_amp": tgt, "nac_dot": None})
+    except Exception as exc:  # noqa
+        return {"reproduced": False, "error": repr(exc)[:300]}
+    if swap is None:
+        return {"reproduced": False, "swap_to": None}
+    row = swap[0].tolist()
+    defined = [i for i in range(3) if row[i] >= 0]
+    is_perm = sorted(row[i] for i in defined) == sorted(defined)
+    return {"reproduced": not is_perm, "swap_to": row, "note": "rows must be a permutation of the states they mention"}
+
+
+def task_crossing_detection(ctx):
+    """The relabelling map built by _detect_crossings is a permutation (every state in at most one swap pair) for every
+    assignment returned by the (stubbed, arbitrary) Hungarian step -- the precondition of the relabel clause."""
+    fn = ctx.under_contract(NAD + ":NonadiabaticDynamicsBase._detect_crossings", stubs=["_compute_perm_from_overlap (scipy Hungarian: arbitrary permutation in the window)"])
+    n = 3
+    for perm in itertools.permutations(range(n)):
+        def thunk():
+            sh = _new_sh(n)
+            sh.__dict__.update(_detect_crossings_flag=True, _trivial_swap_buffers={}, _trivial_zero_buffers={}, _active_states=st.tensor([0]))
+            ov = st.symbolic((1, n, n), "ov")
+            for v in ov.a.reshape(-1):
+                assume((v >= 0) & (v <= 1))
+            saved = (st.einsum, st.abs)
+            st.einsum = lambda eq, a, b: ov
+            try:
+                out = fn(sh, {"cis_amp": st.zeros(1, n, 2), "nac_dot": None}, {"cis_amp": st.zeros(1, n, 2), "nac_dot": None})
+            finally:
+                st.einsum = saved[0]
+            return out
+
+        stubs = {NAD + ":NonadiabaticDynamicsBase._compute_perm_from_overlap": lambda self, ovn, tgt=None: st.tensor([list(perm)] * ovn.shape[0])}
+        ex = ctx.explore(thunk, stubs=stubs, name="_detect_crossings", max_paths=2000)
+        tag = "perm=%s" % "".join(map(str, perm))
+        for p in ex.paths:
+            if p.raised is not None:
+                ctx.fail(tag + ".raises@p%d" % p.path_id, repr(p.raised) + p.notes.get("traceback", "")[-500:])
+                continue
+            sw = p.value
+            if sw is None:
+                continue
+            row = [int(v) for v in sw.a[0]]
+            defined = [i for i in range(n) if row[i] >= 0]
+            is_perm = sorted(row[i] for i in defined) == sorted(defined)
+            if is_perm:
+                ctx.ok(tag + ".swap-map-is-a-permutation@p%d" % p.path_id, "path-exploration", detail=str(row))
+            else:
+                # the path condition must be satisfiable by overlaps of an orthogonal transformation to matter physically
+                ctx.prove(tag + ".swap-map-is-a-permutation@p%d" % p.path_id, E.FALSE, pc=p.pc, replay=replay_three_cycle, classify=lambda m, r: "three-cycle-assignment")
+    ctx.assume_note("the Hungarian assignment is an arbitrary permutation (all 6 of 3 states); overlaps are arbitrary numbers in [0,1]")
+
+
+TASKS_QUICK = ["flow", "attempt_hop", "rescale", "relabel", "scratch_buffers", "crossing_detection"]
 TASKS_THOROUGH = TASKS_QUICK
